@@ -95,14 +95,21 @@ def _run_kani(cwd, harnesses, extra, timeout, log):
         cmd += ["--harness", h]
     cmd += extra
     shell = "ulimit -v %d; exec %s" % (MEM_KB * max(1, min(8, len(harnesses))), " ".join("'%s'" % c for c in cmd))
+    # own process group, so that a timeout kills cargo-kani AND every cbmc it spawned (orphans kept running for hours otherwise)
+    proc = subprocess.Popen(["bash", "-c", shell], cwd=cwd, env=_env(), stdout=subprocess.PIPE, stderr=subprocess.PIPE, text=True, start_new_session=True)
     try:
-        p = subprocess.run(["bash", "-c", shell], cwd=cwd, env=_env(), capture_output=True, text=True, timeout=timeout)
-        out = p.stdout + "\n" + p.stderr
-        rc = p.returncode
-    except subprocess.TimeoutExpired as e:
-        out = ((e.stdout or b"").decode(errors="replace") if isinstance(e.stdout, bytes) else (e.stdout or "")) + "\nTIMEOUT"
+        so, se = proc.communicate(timeout=timeout)
+        out = so + "\n" + se
+        rc = proc.returncode
+    except subprocess.TimeoutExpired:
+        import signal
+        try:
+            os.killpg(proc.pid, signal.SIGKILL)
+        except ProcessLookupError:
+            pass
+        so, se = proc.communicate()
+        out = (so or "") + "\n" + (se or "") + "\nTIMEOUT"
         rc = -9
-        subprocess.run("pkill -f 'cbmc .*vx-scratch' || true", shell=True)
     with open(log, "w") as f:
         f.write(out)
     return rc, out, " ".join(cmd)
